@@ -600,7 +600,8 @@ def run_invlink(CR, base, ns, target, explicit, real=False, bi=0, pi=0):
 # ---- inventories loaded from local files through the real fetch_inventory (no stub): several keys may share one file
 
 LOCAL_KEYS = [("stable", "https://docs.invalid/stable/", 0), ("latest", "https://docs.invalid/latest", 0), ("other", "https://other.invalid/", 1)]
-LOCAL_LINKS = ["stable#one", "latest#one", "*#one", "latest:std:label#two", "other#one", "other#three", "stable#three", "s*#t*"]
+LOCAL_LINKS = ["stable#one", "latest#one", "*#one", "latest:std:label#two", "other#one", "other#three", "stable#three", "s*#t*",
+               "latest:std:doc#two", "latest:std:d*#one", "latest:s*#two", "latest:py:label#two"]
 
 
 def run_local(CR, order, links, real=False):
@@ -610,7 +611,7 @@ def run_local(CR, order, links, real=False):
 
     with tempfile.TemporaryDirectory(prefix="symx_c19_") as d:
         files = []
-        for i, body in enumerate([b"one std:label -1 one.html#$ -\ntwo std:label -1 dir/two.html Two words\n", b"three std:label -1 three.html -\n"]):
+        for i, body in enumerate([b"one std:label -1 one.html#$ -\ntwo std:label -1 dir/two.html Two words\ntwo std:doc -1 docs/two.html Two doc\n", b"three std:label -1 three.html -\n"]):
             path = os.path.join(d, "objects%d.inv" % i)
             open(path, "wb").write(b"# Sphinx inventory version 2\n# Project: P\n# Version: 1\n# The remainder of this file is compressed using zlib.\n" + zlib.compress(body))
             files.append(path)
@@ -631,13 +632,16 @@ def expected_local(order, link):
     """refuri of the first match in configured order (None if nothing matches) and the number of matches."""
     path, _, target = link.partition("#")
     parts = path.split(":")
-    entries = {0: [("one", "one.html#one"), ("two", "dir/two.html")], 1: [("three", "three.html")]}
+    # (name, domain, type, location) in inventory order: domains, then types, in order of first appearance in the file
+    entries = {0: [("one", "std", "label", "one.html#one"), ("two", "std", "label", "dir/two.html"), ("two", "std", "doc", "docs/two.html")], 1: [("three", "std", "label", "three.html")]}
     hits = []
     for i in order:
         key, base, fi = LOCAL_KEYS[i]
         if not spec_match(key, parts[0]):
             continue
-        for name, loc in entries[fi]:
+        for name, dom, typ, loc in entries[fi]:
+            if len(parts) > 1 and not spec_match(dom, parts[1]) or len(parts) > 2 and not spec_match(typ, parts[2]):
+                continue
             if spec_match(name, target):
                 hits.append(base + ("" if base.endswith("/") else "/") + loc)
     return (hits[0] if hits else None), len(hits)
